@@ -249,7 +249,17 @@ def target_consumed(chk, F):
         raise AnchorLost("parse_query: Query::Convert construction not found")
     gated = 0
     for m in hir_walk(h["body"]):
-        if m.get("k") == "Match" and m.get("src") == "Normal" and any(x.get("k") == "MethodCall" and x["name"] == "peek" for x in hir_walk(m["scrut"])):
+        def looks_at_next_token(scrut):
+            """the scrutinee is the next token: iter.peek() itself, or a local helper whose body peeks (after skipping comments)"""
+            for x in hir_walk(scrut):
+                if x.get("k") == "MethodCall" and x["name"] == "peek":
+                    return True
+                if x.get("k") == "Call" and x["f"].get("k") == "Path":
+                    g = F.fns.get(x["f"]["r"].get("id"))
+                    if g is not None and g.crate == CORE and any("Peekable::<I>::peek" in t["callee"]["path"] for _, t in g.calls() if "callee" in t):
+                        return True
+            return False
+        if m.get("k") == "Match" and m.get("src") == "Normal" and looks_at_next_token(m["scrut"]):
             for a in m["arms"]:
                 if "Token::Eof" in H.pat_str(a["pat"]) and any(x is c for c in ctor for x in hir_walk(a["body"])):
                     gated += sum(1 for c in ctor if any(x is c for x in hir_walk(a["body"])))
@@ -278,6 +288,17 @@ def target_consumed(chk, F):
                "Query::Convert is built only in the arm where the next token is the end of the input",
                "Query::Convert is built without checking that the input ends after the target (%d of %d constructions are behind an end-of-input arm): "
                "trailing tokens are dropped and a different, possibly non-conformable, target is answered" % (gated, len(ctor)))
+    # a plain expression query is likewise only accepted at the end of the input (`2 ) 3` is not the number 2)
+    ector = [n for n in hir_walk(h["body"]) if n.get("k") == "Call" and n["f"].get("k") == "Path" and n["f"]["r"].get("ctor_of", "").endswith("Query::Expr")]
+    eg = 0
+    for m in hir_walk(h["body"]):
+        if m.get("k") == "Match" and m.get("src") == "Normal" and looks_at_next_token(m["scrut"]):
+            for a in m["arms"]:
+                if "Token::Eof" in H.pat_str(a["pat"]):
+                    eg += sum(1 for c in ector if any(x is c for x in hir_walk(a["body"])))
+    chk.decide(bool(ector) and eg == len(ector), "target-consumed", fk, "expression-only-at-end-of-input", "%s:%d" % (fn.file, ector[0]["line"] if ector else 0),
+               "Query::Expr is built only when the whole input has been read",
+               "Query::Expr is built without checking that the input ended: `2 ) 3` and `1,5` are answered as `2` and `1`")
     # Degree / Timezone targets: the arm that picks them consumes the token
     arms = []
     for m in hir_walk(h["body"]):
